@@ -393,12 +393,17 @@ def run_frames(case):
             fx = f0.copy()
             fx["note"] = 1.0
             expanded.append((name + "[extra column]", ctor, [fx]))
-            fu = f0.copy()
-            try:
-                fu.index = fu.index.as_unit("us")
-                expanded.append((name + "[us index]", ctor, [fu]))
-            except Exception:
-                pass
+            # the same instants in every datetime resolution other than the frame's own (pandas 3 builds microsecond indexes by
+            # default; files, parquet and older code give nanoseconds)
+            for unit in ("ns", "us", "ms"):
+                if getattr(f0.index, "unit", None) == unit:
+                    continue
+                fu = f0.copy()
+                try:
+                    fu.index = fu.index.as_unit(unit)
+                    expanded.append((name + f"[{unit} index]", ctor, [fu]))
+                except Exception:
+                    pass
             # the same frame on an index built from values (regular, but carrying no freq): metadata the class might fill in
             fn = f0.copy()
             fn.index = _nofreq(fn.index)
